@@ -349,18 +349,28 @@ func vHostileJSON(tp *verifsim.Tape, raw []byte) []byte {
 		if len(keys) > 0 {
 			delete(m, keys[tp.Draw("h.drop", len(keys))])
 		}
-	default: // add hostile known fields
-		m["size"] = json.RawMessage("4611686018427387904")
-		m["step"] = json.RawMessage("-5")
-		m["bufsize"] = json.RawMessage("-1")
-		m["path_name"] = []any{}
-		m["escape_chars"] = []any{[]any{"a"}, 5}
+	default: // hostile values for fields this implementation knows
+		vHostileKnown(tp, m)
 	}
 	js, err := json.Marshal(m)
 	if err != nil {
 		return []byte("{}")
 	}
 	return js
+}
+
+// vHostileKnown puts boundary values into one or two fields this implementation knows (all at once, the first
+// bad one would hide the others).
+func vHostileKnown(tp *verifsim.Tape, m map[string]any) {
+	{
+		known := [][2]string{{"size", "4611686018427387904"}, {"size", "-1"}, {"step", "-5"}, {"bufsize", "-1"}, {"bufsize", "0"}, {"bufsize", "3"}, {"bufsize", "1"},
+			{"bufsize", "-4611686018427387904"}, {"path_name", "[]"}, {"escape_chars", `[["a"],5]`}, {"timeout", "-1"}, {"timeout", "9223372036854775807"}, {"protocol", "-1"},
+			{"protocol", "2147483648"}, {"tmux_pane_width", "-1"}, {"tmux_pane_width", "2147483647"}, {"perm", "4294967296"}}
+		for i := 1 + tp.Draw("h.knownn", 2); i > 0; i-- {
+			kv := known[tp.Draw("h.known", len(known))]
+			m[kv[0]] = json.RawMessage(kv[1])
+		}
+	}
 }
 
 func vHostileEncoded(tp *verifsim.Tape, payload string) string {
@@ -510,6 +520,18 @@ func vScenarioC12(rc *runCtx) {
 			np = []string{"maybe", "", "TRUE", "1"}[tp.Draw("c12.comp", 4)]
 		case "ACT", "CFG", "NAME", "HASH", "MD5", "EXIT", "fail", "FAIL":
 			np = vHostileEncoded(tp, payload)
+			if (typ == "CFG" || typ == "ACT" || typ == "NAME") && tp.Bool("c12.known", 400) {
+				// a well-formed record in which only known fields carry boundary values
+				if raw, err := vDecode(payload); err == nil {
+					var m map[string]any
+					if json.Unmarshal(raw, &m) == nil && m != nil {
+						vHostileKnown(tp, m)
+						if js, err := json.Marshal(m); err == nil {
+							np = vEncode(js)
+						}
+					}
+				}
+			}
 		default:
 			return "", false
 		}
